@@ -289,7 +289,7 @@ def gen_cases(plane, tier):
         types = entry_types(nl, tg)
         for i, e1 in enumerate(types):
             for j, e2 in enumerate(types):
-                cfgs = CONFIGS if tier != "quick" else [CONFIGS[(i * 31 + j) % len(CONFIGS)]]
+                cfgs = [CONFIGS[(i * 31 + j) % len(CONFIGS)]]  # configurations rotate over the pairs (all 7 on every single)
                 for cfg in cfgs:
                     yield [e1, e2], cfg
     elif plane == "triples":
@@ -303,7 +303,7 @@ def gen_cases(plane, tier):
     elif plane == "chains":
         # 4..5 entries: link chains and files written through earlier links
         nl = ["a", "b", "a/b", "a/b/c" if False else "b/a"]
-        links = [(n, "symlink", t) for n in ["a", "b", "a/b", "b/a", "a/a", "b/b"] for t in [".", "..", "a", "b", "../sibling.txt"]]
+        links = [(n, "symlink", t) for n in ["a", "b", "a/b", "b/a", "a/a", "b/b"] for t in ([".", "..", "a", "b", "../sibling.txt"] if tier == "quick" else [".", "..", "../sibling.txt"])]
         files = [(n, "file", None) for n in ["a/evil", "b/evil", "a/b/evil", "b/a/evil", "a/a/evil", "evil", "a", "b", "a/b", "b/a"]]
         n = 3 if tier == "quick" else 4
         for ls in itertools.product(links, repeat=n):
